@@ -254,6 +254,10 @@ func (c *Ctx) callFunction(st *State, fn *ssa.Function, args []Value) (*State, V
 
 	fi := c.info(fn)
 	fs := &FState{st: st, fi: fi, regs: make([]Value, fi.nregs), block: 0}
+	if len(st.pc) > 0 {
+		// loop feasibility checks are only needed once the path condition has grown inside this frame
+		fs.lastChecked = st.pc[len(st.pc)-1]
+	}
 	for i, p := range fn.Params {
 		if i < len(args) {
 			fs.regs[fi.regIdx[p]] = args[i]
@@ -555,6 +559,20 @@ func (c *Ctx) callStructural(cc *ssa.CallCommon) []ssa.Value {
 	}
 	switch v := cc.Value.(type) {
 	case *ssa.Function:
+		// pure path/version helpers of the standard library run once per alternative of a union string
+		// argument, so that concrete strings stay concrete inside them
+		if splitCallFns[v.String()] {
+			return cc.Args
+		}
+		if v.Pkg != nil && splitCallPkgs[v.Pkg.Pkg.Path()] {
+			var out []ssa.Value
+			for _, a := range cc.Args {
+				if isStringType(a.Type()) {
+					out = append(out, a)
+				}
+			}
+			return out
+		}
 		return nil
 	case *ssa.Builtin:
 		switch v.Name() {
@@ -565,6 +583,10 @@ func (c *Ctx) callStructural(cc *ssa.CallCommon) []ssa.Value {
 	}
 	return []ssa.Value{cc.Value}
 }
+
+var splitCallFns = map[string]bool{"sort.Strings": true}
+
+var splitCallPkgs = map[string]bool{"path/filepath": true, "internal/filepathlite": true, "path": true, "golang.org/x/mod/semver": true}
 
 func isStringType(t types.Type) bool {
 	b, ok := t.Underlying().(*types.Basic)
@@ -618,7 +640,7 @@ func (c *Ctx) concretizeInt(st *State, t *Term) []iteLeaf {
 	if t.IsConst() {
 		return []iteLeaf{{c.tt.T, t.val}}
 	}
-	if isIteConstTree(t, 0) {
+	if t.ics > 0 && t.ics <= 4096 {
 		var out []iteLeaf
 		c.tt.iteLeaves(t, c.tt.T, &out)
 		// combine equal values
